@@ -52,6 +52,13 @@ class _Shape(ast.NodeTransformer):
                 node.left, node.comparators = r, [l]
         return node
 
+    def visit_Call(self, node):
+        self.generic_visit(node)
+        # typing.cast(T, e) is e at run time (T is a type expression: evaluating it has no effect)
+        if isinstance(node.func, ast.Name) and node.func.id == "cast" and len(node.args) == 2 and not node.keywords:
+            return node.args[1]
+        return node
+
     def visit_comprehension(self, node):
         self.generic_visit(node)
         # `for x in xs if a if b` is `for x in xs if a and b`
@@ -401,6 +408,18 @@ def directed_rewrites(tree: ast.Module, relpath: str):
     for q, fn in _functions(tree):
         if q in sh.get("params", {}):
             rw.restore_nested_params(fn, sh["params"][q])
+
+    # functions / methods of the module whose body is one `return <expression>` (unique name, no decorator but staticmethod)
+    one, seen_names = {}, {}
+    for q, fn in _functions(tree):
+        seen_names[fn.name] = seen_names.get(fn.name, 0) + 1
+        body = [b for b in fn.body if not (isinstance(b, ast.Expr) and isinstance(b.value, ast.Constant)) and not isinstance(b, (ast.Import, ast.ImportFrom))]
+        if len(body) == 1 and isinstance(body[0], ast.Return) and body[0].value is not None and not fn.args.vararg and not fn.args.kwarg and not fn.args.kwonlyargs and not fn.args.defaults \
+                and all(isinstance(d, ast.Name) and d.id == "staticmethod" for d in fn.decorator_list) and q.count(".") <= 1 and not isinstance(fn, ast.AsyncFunctionDef) \
+                and not any(isinstance(x, (ast.Yield, ast.YieldFrom, ast.Await)) for x in ast.walk(fn)):
+            one[fn.name] = fn
+    rw.MODULE_ONE_LINERS.clear()
+    rw.MODULE_ONE_LINERS.update({k: v for k, v in one.items() if seen_names.get(k) == 1})
 
     def normalise(fn):
         _Shape().visit(fn)
